@@ -127,6 +127,14 @@ class AbstractExcelInPython(ABC):
                     return self._by_operator(operator, str(left_operand), str(right_operand))
 
 
+    def _with_rows_set_below(self, title: int, first_column: int, last_column: int, rows: List[List]) -> List[List]:
+        # a whole-column area covers every row of its sheet: also the rows that cells set after the translation have
+        # added below the last row of the workbook (the rows of the workbook are listed in the translated code)
+        for row in range(len(rows), self._sheets_size[title]['last_row']):
+            rows.append([self._cell_preprocessor(f'_{title}_{column}_{row}')
+                         for column in range(first_column, last_column + 1)])
+        return rows
+
     def _flatten_list(self, subject: List) -> List:
         result = []
         for i in subject:
